@@ -234,7 +234,27 @@ def _args_are_local(self, fv, body, call):
 Effects.args_are_local = _args_are_local
 
 
-def refusal_exits(ctx, fv, storage_pred=None, kinds=("err",)):
+def _storage_only(ctx, body, storage_pred, _stack=()):
+    """`body` is a storage wrapper: it can fail, and every one of its error exits is caused solely by the
+    failure of a storage call (directly or through another such wrapper), e.g. Node::update_allowlist"""
+    cache = ctx.__dict__.setdefault("_so", {})
+    key = body.d.id
+    if key in cache:
+        return cache[key]
+    if key in _stack or len(_stack) > 3:
+        return False
+    fv = R.fnview(ctx, body)
+    errs = [r for r in fv.return_sites() if r["kind"] == "err"]
+    maybe = [r for r in fv.return_sites() if r["kind"] == "maybe"]
+    res = False
+    if errs or maybe:
+        ex, se = refusal_exits(ctx, fv, storage_pred, ("err", "maybe"), _stack + (key,))
+        res = bool(se) and not ex
+    cache[key] = res
+    return res
+
+
+def refusal_exits(ctx, fv, storage_pred=None, kinds=("err",), _stack=()):
     """return sites that deliver an error and are not caused solely by a storage-layer failure"""
     out = []
     store_edges = set()
@@ -244,13 +264,47 @@ def refusal_exits(ctx, fv, storage_pred=None, kinds=("err",)):
             n2 = c.decl.name if c.decl else ""
             if storage_pred(n1) or storage_pred(n2):
                 store_edges |= fv.result_edges(bi, c, "err")
+                # `return persister.update(..).map_err(..)`: the call's result is the function's result
+                if not fv.result_edges(bi, c, "err") and not fv.result_edges(bi, c, "ok"):
+                    store_edges.add(("tail", bi))
+            elif c.callee is not None and c.callee.id in ctx.prog.bodies and c.callee.krate == fv.b.d.krate:
+                cb = ctx.prog.bodies[c.callee.id]
+                if cb is not fv.b and "Result<" in cb.local_tys[0] and _storage_only(ctx, cb, storage_pred, _stack):
+                    store_edges |= fv.result_edges(bi, c, "err")
+    tails = {e[1] for e in store_edges if e[0] == "tail"}
+    store_edges = {e for e in store_edges if e[0] != "tail"}
     for r in fv.return_sites():
         if r["kind"] not in kinds:
             continue
         if store_edges and r["block"] not in fv.reach(0, cut_edges=store_edges):
             continue    # only reachable through a storage failure
+        if tails and "call" in r and r["block"] in tails:
+            continue
+        if tails and r["kind"] == "maybe" and _tail_of(fv, r, tails):
+            continue
         out.append(r)
+    if tails and not store_edges:
+        store_edges = {("tail", t) for t in tails}
     return out, store_edges
+
+
+def _tail_of(fv, r, tails):
+    """the returned Result is (a map_err/identity image of) the result of a storage call in `tails`"""
+    try:
+        e = fv.expr(r["stmt"].rv.ops[0]) if "stmt" in r and r["stmt"].rv.ops else None
+    except Exception:
+        e = None
+    if e is None and "call" in r:
+        e = fv._call_expr(r["call"], 0)
+    if e is None:
+        return False
+    from .cfg import subexprs
+    for t in tails:
+        c = fv.b.term(t).call
+        nm = c.callee.name if c.callee else ""
+        if any(x[0] == "call" and x[1] == nm for x in subexprs(e)):
+            return True
+    return False
 
 
 def e5_pairs(ctx, eff, body, storage_pred, classes=None, extra_sites=(), _stack=None, kinds=("err",)):
